@@ -1,6 +1,8 @@
 import PdfModel.Lemmas.Widths
 import PdfModel.Lemmas.CMapWrite
 import PdfModel.Lemmas.CMapTotal
+import PdfModel.Lemmas.CMapSpell
+import PdfModel.Lemmas.CMapSpellCheck
 
 /-!
   C19 — "Glyph widths and Unicode maps follow the font dictionaries exactly".
@@ -175,6 +177,25 @@ theorem cmap_spec (es : List Ent) (wf : ∀ e ∈ es, e.wf = true) :
     ∃ m, parseCMap (CMap.render none es) = .ok m ∧ ∀ cid, m.get cid = denote es cid :=
   ⟨(pairs es).reverse, parseCMap_render es wf, fun _ => rfl⟩
 
+/-- Clause "every well-formed map using single-code entries and both range forms assigns each code the text the
+    specification defines", for *every conformant spelling* of the program, not only the writer's layout:
+    any white space (NUL, TAB, LF, FF, CR, SP) and comments between tokens, upper- or lower-case hexadecimal digits
+    with white space between them, one- or two-byte codes, any number and order of `beginbfchar` / `beginbfrange`
+    blocks, and between the blocks anything made of tokens other than the three keywords the reader reacts to
+    (PostScript header and trailer, `begincodespacerange … endcodespacerange`, `usecmap`, counts, dictionaries,
+    names, literal strings), up to `endcmap` or the end of the text. Single codes, string-form ranges, array-form
+    ranges, supplementary planes (surrogate pairs) and multi-character (ligature) destinations alike. -/
+theorem cmap_reads_spelling (es : List Ent) (text : Bytes) (h : CMapSpells es text) :
+    ∃ m, parseCMap text = .ok m ∧ ∀ cid, m.get cid = denote es cid :=
+  ⟨(pairs es).reverse, parseCMap_spelling h, fun _ => rfl⟩
+
+/-- The domain certificate the driver hands to the harness is sound: the executable recogniser
+    `spellsCheck` (run on every conformant CMap text the harness generates, with the entries the generator meant)
+    only accepts members of `CMapSpells`, hence texts on which the reader yields `denote`. -/
+theorem certificates_sound (es : List Ent) (text : Bytes) (h : spellsCheck es text = true) :
+    CMapSpells es text ∧ ∃ m, parseCMap text = .ok m ∧ ∀ cid, m.get cid = denote es cid :=
+  ⟨spellsCheck_sound h, cmap_reads_spelling es text (spellsCheck_sound h)⟩
+
 /-- Clause "for every code-to-text map, the character-map text produced by the writer reads back as the same
     map": for the sorted entry list of any map `u16 → Unicode string` (keys strictly increasing below 65536,
     strings of scalar values — BMP or supplementary, empty strings included) `write_cmap` does not overflow its
@@ -206,6 +227,23 @@ example : ∀ e ∈ exProgram, e.wf = true := by decide
 example : parseCMap (CMap.render none exProgram) =
     .ok [(0x30, [0x1F600]), (0x22, [0xE000, 0x62]), (0x21, [0x10FFFF]), (0x20, [0x61]), (0x12, [0x43]), (0x11, [0x42]),
          (0x10, [0x41]), (65535, [0x1F600, 0x41]), (3, [0x20])] := by decide +kernel
+
+/-- a spelling with everything the layout allows: a `%!PS` comment ended by CR, header junk with a dictionary, a
+    literal string and names, a codespace range, form feed / NUL / TAB white space, a one-byte code, lower-case
+    digits, a space inside a hexadecimal string, a comment between the strings of an entry, two blocks, text after
+    `endcmap` -/
+def exSpelling : Bytes :=
+  "%!PS-Adobe-3.0 Resource-CMap\r/CIDInit /ProcSet findresource begin 12 dict begin begincmap\n/CIDSystemInfo << /Registry (Adobe) /Supplement 0 >> def\n1 begincodespacerange <00> <ffff> endcodespacerange /X usecmap\n2\x0cbeginbfchar\x00<03>\t<00 20>% c <0001>\r<ffff><d83dDE00 0041>endbfchar 2 beginbfrange <0010><0012> % x\n <0041>\n<0020> <0021> [<0061><DBFF dfff>]\rendbfrange\nendcmap junk beginbfchar".toUTF8.toList
+
+def exSpellingEntries : List Ent :=
+  [.char 3 [0x20], .char 65535 [0x1F600, 0x41], .rstr 0x10 [[0x41], [0x42], [0x43]], .rarr 0x20 [[0x61], [0x10FFFF]]]
+
+example : spellsCheck exSpellingEntries exSpelling = true := by decide +kernel
+example : parseCMap exSpelling =
+    .ok [(0x21, [0x10FFFF]), (0x20, [0x61]), (0x12, [0x43]), (0x11, [0x42]), (0x10, [0x41]), (65535, [0x1F600, 0x41]),
+         (3, [0x20])] := by decide +kernel
+/-- the checker refuses a text that is not a spelling of the entries (here: a wrong destination) -/
+example : spellsCheck [.char 3 [0x21]] exSpelling = false := by decide +kernel
 
 /-- a sorted map with a run at the very end of the code range (no `u16` overflow), singletons and a run -/
 def exMap : List Entry := [(1, [0x41]), (2, [0x1F600]), (3, [0x43]), (9, [0x44]), (65534, [0x45]), (65535, [0x46])]
